@@ -115,6 +115,16 @@ func l3handle(item *vItem) []byte {
 		ndAssume(len(buf) == 1 && buf[0] == 0xf6)
 	} else if item.kind != ikTag {
 		verifMapLike(buf)
+	} else if ndSymbolic() {
+		// a tagged item, as far as own byte-level code can see it: a one-byte tag head followed
+		// by the encoding of the content (null = f6; anything else does not start like null,
+		// undefined or another tag)
+		ndAssume(len(buf) >= 2 && buf[0]>>5 == 6 && buf[0]&0x1f < 24)
+		if item.inner != nil && item.inner.kind == ikNull {
+			ndAssume(len(buf) == 2 && buf[1] == 0xf6)
+		} else {
+			ndAssume(buf[1] != 0xf6 && buf[1] != 0xf7 && buf[1]>>5 != 6)
+		}
 	}
 	verifL3.bufs = append(verifL3.bufs, l3buf{buf, item})
 	return buf
